@@ -55,6 +55,16 @@ CLAIMED = {
    design_ref="DESIGN.md section 6 C15, section 13",
    note="exact comparison while stored values stay rational, numeric (replay) or structural (trace) otherwise",
    technique="TLA+ state machine (ObjectSM.tla) model-checked with action properties; behaviours replayed into real objects; recorded traces validated by TLC (ObjectSMTrace.tla)"),
+ "C16": dict(category="model_checking",
+   text="Frame conditions as a trace specification: every call of a catalogue covering every executed state of Types.tla (all public methods and operators x backend pairings x flavors x dimensions) plus reductions, indexing, copying, pickling, printing, container conversions and constructors fed the caller's own arrays/dtypes is run under four prior settings in unregistered and registered mode; bit-level digests (raw bytes, dtype descr and names, shape, class, Awkward form+buffers) of every operand are logged before and after each call and TLC validates every event against SessionTrace.tla, whose step for a non-assignment call is UNCHANGED operands.",
+   design_ref="DESIGN.md section 6 C16, section 13",
+   note="digest functions are trusted; explicit in-place operators and setters are C15",
+   technique="TLA+ trace specification (SessionTrace.tla) validating recorded call events with operand digests"),
+ "C20": dict(category="model_checking",
+   text="(a) spec/Globals.tla models process state and per-thread numpy.errstate contexts; TLC explores all interleavings of Enter/Exit/Register for 2-4 threads under each prior error mode (GlobalsRestored, RegisterIdempotent, ResultsEqualSequential, OnlyRegisterChangesRegistry) and the negative configuration with a process-global error state must produce a counterexample. (b) Every catalogued call is executed in fresh processes under four prior NumPy/warnings/print-option settings, unregistered and registered (register_awkward twice); the fingerprint of numpy.geterr, warnings.filters, print options, ak.behavior and vector._awkward_registered is logged before and after each call, returning or raising, and validated by TLC against SessionTrace.tla with per-thread continuity. (c) The same call list is run sequentially and on 8/16 threads; results must be bit-identical and every thread's trace is validated.",
+   design_ref="DESIGN.md section 6 C20, section 13",
+   note="real schedules are sampled under a 1 microsecond switch interval; the specification enumerates them",
+   technique="TLA+ model of globals and thread contexts (Globals.tla) model-checked incl. negative configuration; recorded per-call fingerprints validated by TLC (SessionTrace.tla); thread runs compared bit-for-bit"),
 }
 
 def entry(pid, c):
